@@ -63,6 +63,9 @@ pub enum COp {
     Status { to: St, late: bool },
     /// Client event; `sys`: emitted from a system in `Update` instead of between frames.
     EmitC1 { sys: bool },
+    /// Two server events of one type before the same frame: the first for the remote client
+    /// only, the second for everyone.
+    EmitE1Pair,
     /// The transport reports `Connected` and a system in `Update` of that very frame emits a
     /// client event (e.g. game logic behind `run_if(client_just_connected)`).
     ConnectAndEmit,
@@ -87,6 +90,7 @@ impl COp {
             COp::EmitC1 { sys } => format!("emit client event{}", if *sys { " from Update" } else { "" }),
             COp::EmitC1Unflushed => "emit client event, transport does not flush this frame".into(),
             COp::ConnectAndEmit => "client status -> Connected, client event emitted from Update of the same frame".into(),
+            COp::EmitE1Pair => "emit server event ExceptServer, then Broadcast, before the same frame".into(),
             COp::EmitCT { target, sys } => format!(
                 "emit client trigger{}{}",
                 if *target { " with target" } else { "" },
@@ -238,7 +242,7 @@ impl C13Cell {
                     St::Disconnected => cur != St::Disconnected,
                 }
             }
-            COp::EmitC1 { .. } | COp::EmitCT { .. } => true,
+            COp::EmitC1 { .. } | COp::EmitCT { .. } | COp::EmitE1Pair => true,
             COp::EmitC1Unflushed => status == Some(St::Connected) && !pending_status,
             COp::ConnectAndEmit => !running && !pending_status && !pending_stop && matches!(status, Some(St::Disconnected) | Some(St::Connecting)),
             COp::EmitE1 { mode, .. } | COp::EmitT1 { mode, .. } | COp::EmitEI { mode, .. } | COp::EmitTI { mode, .. } => match mode {
@@ -642,6 +646,12 @@ impl Scenario for C13Cell {
                     x.app.world_mut().resource_mut::<RepliconClient>().set_status(s);
                 }
             }
+            COp::EmitE1Pair => {
+                for mode in [ModeS::ExceptServer, ModeS::Broadcast] {
+                    let s = new_emission(x, SK::E1.tag(), false, recipients(mode));
+                    x.app.world_mut().send_event(ToClients { mode: send_mode(mode), event: E1(s) });
+                }
+            }
             COp::ConnectAndEmit => {
                 x.app.world_mut().resource_mut::<RepliconClient>().set_status(RepliconClientStatus::Connected);
                 let s = new_emission(x, CK::C1.tag(), true, (false, false));
@@ -769,6 +779,7 @@ pub fn cells(tier: Tier) -> Vec<CellPlan> {
         COp::EmitE1 { mode: ModeS::ExceptServer, sys: true },
         COp::EmitE1 { mode: ModeS::DirectServer, sys: false },
         COp::EmitE1 { mode: ModeS::DirectRemote, sys: false },
+        COp::EmitE1Pair,
         COp::EmitT1 { mode: ModeS::ExceptRemote, sys: true },
         COp::EmitT1 { mode: ModeS::Broadcast, sys: false },
     ];
